@@ -5,7 +5,10 @@ Oracle: the scheduler's wait-for graph.  A run that ends with a wait-for cycle
 finite timer is pending (`stuck`), or with a client still inside an API call
 after 10^4 virtual seconds (`vtime`), is a violation.  Client-side waits that
 may legitimately time out (result(T)) use finite virtual timeouts and are not
-judged here.
+judged here.  Second oracle, for runs whose clients all returned: every API
+call (submit / cancel / add_done_callback / shutdown) issued anywhere - also by
+user code running on one of the library's threads - has returned by the end of
+the program.
 """
 import itertools
 import vsched
@@ -19,7 +22,8 @@ RULE = (
     "(thorough: pairs inside the contention window), enumerated nested-submission programs "
     "(site x stack), and Hypothesis-drawn programs of <=3 client threads over stacks of depth <=4 with tapes of <=8 entries. "
     "Non-trivial = at least one pre-emption was taken AND some thread had to wait for a lock, or the program nests a submission. "
-    "Distinct = digest of (program, tape, clock-mode)."
+    "Distinct = digest of (program, tape, clock-mode). Oracle: no wait-for cycle, no client blocked with nothing runnable, no client "
+    "inside an API call after 10^4 virtual seconds, and no API call issued from user code on a library thread left unreturned at the end."
 )
 ASSUMPTIONS = [
     "pre-emption granularity is one source line of more_executors/_impl plus every primitive operation",
@@ -49,6 +53,41 @@ def signature(s):
     return None
 
 
+K2 = "C04:hang:outer-layer-lock-held-across-blocking-throttle-submit"
+
+
+def outer_lock_across_blocking_throttle(s, w):
+    """The one recorded, unrepaired deadlock shape (known finding K2), recognised structurally:
+    some thread is parked in ThrottleExecutor._block_until_ready of a blocking throttle *called from a layer above it*,
+    and a blocking throttle's own hand-over thread - the only thread that drains its queue - waits for a mutex that does
+    not belong to that throttle (the shutdown gate or executor lock of the outer layer).  Anything else keeps its
+    ordinary signature."""
+    if w is None:
+        return False
+    outer_files = ("map.py", "retry.py", "cancel_on_shutdown.py", "poll.py", "timeout.py", "asyncio.py", "flat_map.py")
+    parked_from_outer = False
+    for t in s.final_threads:
+        if t["done"] or not t.get("loc") or t["loc"][1] != "_block_until_ready":
+            continue
+        files = [fr.split(":")[0] for fr in (t.get("stack") or [])]
+        if any(f in outer_files for f in files):
+            parked_from_outer = True
+    if not parked_from_outer:
+        return False
+    by_name = {}
+    for t in s.final_threads:
+        by_name.setdefault(t["name"], []).append(t)
+    for levels in w.exs.values():
+        for ex in levels:
+            if type(ex).__name__ != "ThrottleExecutor" or not getattr(ex, "_block", False):
+                continue
+            own = set(id(x) for x in (getattr(ex, "_lock", None), getattr(ex, "_block_lock", None), getattr(ex._shutdown, "_lock", None)))
+            for t in by_name.get(ex._thread.name, []):
+                if not t["done"] and t.get("blocked_id") is not None and t["blocked_id"] not in own:
+                    return True
+    return False
+
+
 def evaluate(case):
     """Run one case. Returns (violations, info)."""
     s, w = progs.run_case(case, track_lock_order=True)
@@ -62,7 +101,7 @@ def evaluate(case):
     }
     viols = []
     if s.end_reason in ("deadlock", "stuck", "vtime"):
-        sig = signature(s)
+        sig = K2 if outer_lock_across_blocking_throttle(s, w) else signature(s)
         detail = {
             "end_reason": s.end_reason,
             "deadlock": s.deadlock,
@@ -73,6 +112,17 @@ def evaluate(case):
         viols.append({"signature": sig, "detail": detail})
     elif s.end_reason == "steps":
         info["inconclusive"] = True
+    elif w is not None:
+        # every API call made anywhere - also from user code running on the library's own threads - must have returned
+        import world as _world
+        h = _world.History(s, w)
+        stuck_ops = [o for o in h.unfinished_ops() if o["op"][0] in ("submit", "cancel", "add_cb", "shutdown")]
+        if stuck_ops:
+            o = stuck_ops[0]
+            where = [t for t in s.final_threads if t["name"] == o["thread"]]
+            sig = K2 if outer_lock_across_blocking_throttle(s, w) else "C04:call-never-returned:%s-on-%s" % (o["op"][0], o["thread"].split("-")[0])
+            viols.append({"signature": sig,
+                          "detail": {"op": o["op"][:3], "thread": where, "end_reason": s.end_reason}})
     if w is not None and w.errors:
         info["world_errors"] = w.errors
     return viols, info
@@ -179,6 +229,40 @@ def nested_cases():
         "shutdown-sweep/cos": ([{"kind": "map", "fn": None, "err": None}, {"kind": "cos"}], [["shutdown", "ex", True]]),
         "shutdown-sweep/cos+timeout": ([{"kind": "timeout", "t": 5000.0}, {"kind": "cos"}], [["shutdown", "ex", True]]),
     }
+    # (b3) blocking throttle over a sync base: the callable and the done-callbacks run on the hand-over thread
+    #      itself; a nested submit() from there must not wait for the queue that only this thread can drain
+    out.append(("callback-internal/throttle-block-nested-on-handover-thread", {
+        "setup": [["build", "ex", {"base": {"kind": "sync"}, "layers": [{"kind": "throttle", "count": 1, "block": True}]}]],
+        "threads": [[["submit", "ex", "f0", {"script": [["gate", "g", ["tag"]]]}],
+                     ["add_cb", "f0", "cb0", ["op", ["submit", "ex", "n0", inner]]], ["sleep", 0.25],
+                     ["submit", "ex", "f1", {"script": [["tag"]]}], ["open", "g"], ["result", "f0", 5], ["sleep", 1.0], ["result", "f1", 5], ["result", "n0", 5]]],
+        "final": [], "settle": 2}))
+    out.append(("callback-internal/throttle-block-nested-while-a-submit-is-parked", {
+        "setup": [["build", "ex", {"base": {"kind": "sync"}, "layers": [{"kind": "throttle", "count": 1, "block": True}]}]],
+        "threads": [[["submit", "ex", "f0", {"script": [["gate", "g", ["tag"]]]}],
+                     ["add_cb", "f0", "cb0", ["op", ["submit", "ex", "n0", inner]]],
+                     ["submit", "ex", "f1", {"script": [["tag"]]}], ["sleep", 1.0], ["open", "g"], ["result", "f0", 5], ["sleep", 1.0],
+                     ["result", "f1", 5], ["result", "n0", 5]],
+                    [["sleep", 0.5], ["submit", "ex", "f2", {"script": [["tag"]]}], ["result", "f2", 5]]],
+        "final": [], "settle": 2}))
+    # (b4) the same with a layer above the blocking throttle: known finding K2 (the outer layer's gate / lock is held across
+    #      the parked delegate submit); kept in the search so that the exclusion is counted and any other outcome is reported
+    for tname, top in (("map", {"kind": "map", "fn": [["app", "m"]], "err": None}), ("cos", {"kind": "cos"}),
+                       ("retry", {"kind": "retry", "policy": {"type": "exc", "max_attempts": 2, "sleep": 0.25}}),
+                       ("timeout", {"kind": "timeout", "timeout": 50}), ("poll", {"kind": "poll", "interval": 0.5, "per_sub": {}})):
+        out.append(("callback-internal/throttle-block-under-%s-nested-while-a-submit-is-parked" % tname, {
+            "setup": [["build", "ex", {"base": {"kind": "sync"}, "layers": [{"kind": "throttle", "count": 1, "block": True}, top]}]],
+            "threads": [[["submit", "ex", "f0", {"script": [["gate", "g", ["tag"]]]}],
+                         ["add_cb", "f0", "cb0", ["op", ["submit", "ex", "n0", inner]]],
+                         ["submit", "ex", "f1", {"script": [["tag"]]}], ["sleep", 1.0], ["open", "g"], ["result", "f0", 5], ["sleep", 1.0],
+                         ["result", "f1", 5], ["result", "n0", 5]],
+                        [["sleep", 0.5], ["submit", "ex", "f2", {"script": [["tag"]]}], ["result", "f2", 5]]],
+            "final": [], "settle": 2}))
+    out.append(("callable/throttle-block-nested-on-handover-thread", {
+        "setup": [["build", "ex", {"base": {"kind": "sync"}, "layers": [{"kind": "throttle", "count": 1, "block": True}]}]],
+        "threads": [[["submit", "ex", "f0", {"script": [["gate", "g", ["submit", "ex", "n0", inner, ["tag"]]]]}], ["sleep", 0.25],
+                     ["submit", "ex", "f1", {"script": [["tag"]]}], ["open", "g"], ["result", "f0", 5], ["sleep", 1.0], ["result", "f1", 5], ["result", "n0", 5]]],
+        "final": [], "settle": 2}))
     for ename, (layers, how) in sorted(ends.items()):
         fail = [["raise", "E0"]] if "retry-exhausted" in ename else [["tag"]]
         out.append(("callback-internal/" + ename, {
